@@ -103,7 +103,7 @@ def run(ctx):
         th = threading.Thread(target=work)
         th.start()                       # TLC design step runs while the VM scenarios are recorded
     try:
-        files = record(ctx, ctx.pick(12, 80), ctx.pick(14, 16))
+        files = record(ctx, ctx.pick(12, 300), ctx.pick(14, 16))
     finally:
         if th:
             th.join()
